@@ -50,7 +50,7 @@ impl PatchHeader {
 
     /// Set the origin of the patch.
     pub fn set_origin(&mut self, category: Option<OriginCategory>, origin: Origin) {
-        self.0.insert(
+        self.0.set(
             "Origin",
             crate::fields::format_origin(&category, &origin).as_str(),
         );
@@ -66,7 +66,7 @@ impl PatchHeader {
 
     /// Set the `Forwarded` field.
     pub fn set_forwarded(&mut self, forwarded: Forwarded) {
-        self.0.insert("Forwarded", forwarded.to_string().as_str());
+        self.0.set("Forwarded", forwarded.to_string().as_str());
     }
 
     /// The author of the patch.
@@ -77,9 +77,9 @@ impl PatchHeader {
     /// Set the author of the patch.
     pub fn set_author(&mut self, author: &str) {
         if self.0.contains_key("From") {
-            self.0.insert("From", author);
+            self.0.set("From", author);
         } else {
-            self.0.insert("Author", author);
+            self.0.set("Author", author);
         }
     }
 
@@ -99,7 +99,7 @@ impl PatchHeader {
     /// Set the date of the last update
     pub fn set_last_update(&mut self, date: chrono::NaiveDate) {
         self.0
-            .insert("Last-Update", date.format("%Y-%m-%d").to_string().as_str());
+            .set("Last-Update", date.format("%Y-%m-%d").to_string().as_str());
     }
 
     /// The `Applied-Upstream` field.
@@ -113,7 +113,7 @@ impl PatchHeader {
     /// Set the `Applied-Upstream` field.
     pub fn set_applied_upstream(&mut self, applied_upstream: AppliedUpstream) {
         self.0
-            .insert("Applied-Upstream", applied_upstream.to_string().as_str());
+            .set("Applied-Upstream", applied_upstream.to_string().as_str());
     }
 
     /// Get the bugs associated with the patch.
@@ -142,12 +142,12 @@ impl PatchHeader {
 
     /// Set the upstream bug associated with the patch.
     pub fn set_upstream_bug(&mut self, bug: &str) {
-        self.0.insert("Bug", bug);
+        self.0.set("Bug", bug);
     }
 
     /// Set the bug associated with a specific vendor.
     pub fn set_vendor_bug(&mut self, vendor: &str, bug: &str) {
-        self.0.insert(format!("Bug-{}", vendor).as_str(), bug);
+        self.0.set(format!("Bug-{}", vendor).as_str(), bug);
     }
 
     /// Get the description or subject field.
@@ -171,7 +171,7 @@ impl PatchHeader {
                 description,
                 subject.split_once('\n').map(|x| x.1).unwrap_or("")
             );
-            self.0.insert("Subject", new.as_str());
+            self.0.set("Subject", new.as_str());
         } else if let Some(description) = self.0.get("Description") {
             // Replace the first line with ours
             let new = format!(
@@ -179,9 +179,9 @@ impl PatchHeader {
                 description.split_once('\n').map(|x| x.1).unwrap_or(""),
                 description
             );
-            self.0.insert("Description", new.as_str());
+            self.0.set("Description", new.as_str());
         } else {
-            self.0.insert("Description", description);
+            self.0.set("Description", description);
         }
     }
 
@@ -201,7 +201,7 @@ impl PatchHeader {
                 .map(|x| x.0)
                 .unwrap_or(subject.as_str());
             let new = format!("{}\n{}", first_line, long_description);
-            self.0.insert("Subject", new.as_str());
+            self.0.set("Subject", new.as_str());
         } else if let Some(description) = self.0.get("Description") {
             // Keep the first line, but replace the rest with our text
             let first_line = description
@@ -209,9 +209,9 @@ impl PatchHeader {
                 .map(|x| x.0)
                 .unwrap_or(description.as_str());
             let new = format!("{}\n{}", first_line, long_description);
-            self.0.insert("Description", new.as_str());
+            self.0.set("Description", new.as_str());
         } else {
-            self.0.insert("Description", long_description);
+            self.0.set("Description", long_description);
         }
     }
 
